@@ -354,9 +354,10 @@ class PiecewiseConstantCoalescent(AbstractCoalescentDistribution):
         """
         node_mask_sorted, lchoose2, intervals = self._sorted_terms(node_heights)
 
-        if self.theta.dim() > 1:
+        # one row per sample: node heights or population sizes (or both) are batched
+        if lchoose2.dim() > 1:
             sufficient_statistics = []
-            for i in range(self.theta.shape[-2]):
+            for i in range(lchoose2.shape[-2]):
                 groups = torch.tensor_split(
                     lchoose2[i] * intervals[i],
                     torch.where(node_mask_sorted[i] == -1)[0],
